@@ -247,15 +247,20 @@ def afm(spec, r, knobs):
 
 
 # ----------------------------------------------------------------------------- Glencoe JSON
-def glencoe(spec, r, knobs):
-    """knobs: ids, key-order, nary, notes"""
+def glencoe(spec, r, knobs, keep_ids=None):
+    """knobs: ids, key-order, nary, notes, ids-are-other-names.  keep_ids: {name in this spec: name the feature
+    had when its id was assigned} - a re-export after a rename keeps the ids of the earlier document."""
+    import zlib
+    keep_ids = keep_ids or {}
     idmap = {}
     for i, n in enumerate(S.feature_names(spec)):
-        idmap[n] = (f"id_{i}_{r.randint(100, 999)}" if "ids" in knobs else n)
+        was = keep_ids.get(n, n)
+        idmap[n] = (f"id_{i}_{zlib.crc32(was.encode()) % 900 + 100}" if "ids" in knobs else was)
     if "ids-are-other-names" in knobs:
         # ids are arbitrary keys: here every feature's id is the NAME of another feature (a rotation)
         ns = S.feature_names(spec)
-        idmap = {n: ns[(i + 1) % len(ns)] for i, n in enumerate(ns)}
+        was = [keep_ids.get(n, n) for n in ns]
+        idmap = {n: was[(i + 1) % len(ns)] for i, n in enumerate(ns)}
     features = {}
 
     def tree(f, optional):
